@@ -53,6 +53,9 @@ use wkt::TryFromWkt;
 enum Row {
     /// LINESTRING through these grid points (coordinate = k/8)
     Line(Vec<(i32, i32)>),
+    /// LINESTRING through these f32 values, given by their bit patterns (coordinates that need more than
+    /// three decimals: k/2^m, 1e-7, 0.1f32 ...); written with Rust's shortest round-trip printing
+    Bits(Vec<(u32, u32)>),
     /// a row that parse_wkt_linestring rejects
     Bad(String),
 }
@@ -279,6 +282,11 @@ fn row_text(r: &Row) -> String {
     match r {
         Row::Bad(s) => s.clone(),
         Row::Line(pts) if pts.is_empty() => "LINESTRING EMPTY".to_string(),
+        Row::Bits(pts) if pts.is_empty() => "LINESTRING EMPTY".to_string(),
+        Row::Bits(pts) => format!(
+            "LINESTRING ({})",
+            pts.iter().map(|(x, y)| format!("{} {}", f32::from_bits(*x), f32::from_bits(*y))).collect::<Vec<_>>().join(", ")
+        ),
         Row::Line(pts) => format!(
             "LINESTRING ({})",
             pts.iter().map(|(x, y)| format!("{} {}", coord_text(*x), coord_text(*y))).collect::<Vec<_>>().join(", ")
@@ -312,10 +320,20 @@ fn write_table(path: &Path, lines: &[String], gz: bool) {
 
 // ---------------------------------------------------------------- re-parsing the response
 
-fn grid(x: f64) -> String {
-    let k = x * 8.0;
+/// the integer label of a stored f32 coordinate (coordinates are opaque in the model): the grid index k
+/// when the value is k/8, otherwise 10^12 + the f32 bit pattern, so equal labels = equal f32 bits
+fn coord_label(v: f32) -> i64 {
+    let k = v as f64 * 8.0;
     if k.fract() == 0.0 && k.abs() < 1e9 {
-        format!("{}", k as i64)
+        k as i64
+    } else {
+        1_000_000_000_000 + v.to_bits() as i64
+    }
+}
+/// label of a re-parsed ordinate: it must be exactly an f32 value (the stored one, bit for bit)
+fn grid(x: f64) -> String {
+    if (x as f32) as f64 == x {
+        format!("{}", coord_label(x as f32))
     } else {
         format!("?{}", x)
     }
@@ -377,6 +395,10 @@ fn unhex(s: &str) -> Result<Vec<u8>, String> {
     }
     (0..s.len() / 2).map(|i| u8::from_str_radix(&s[2 * i..2 * i + 2], 16).map_err(|e| e.to_string())).collect()
 }
+/// WKT written from f32 is read back as f32: Rust prints the shortest text that re-parses to the same f32
+fn ls_pts32(l: &geo::LineString<f32>) -> Vec<(f64, f64)> {
+    l.0.iter().map(|c| (c.x as f64, c.y as f64)).collect()
+}
 fn ls_pts(l: &geo::LineString<f64>) -> Vec<(f64, f64)> {
     l.0.iter().map(|c| (c.x, c.y)).collect()
 }
@@ -400,8 +422,8 @@ fn show_route_path(f: Fmt, v: &Value) -> String {
         Fmt::GeoJson => Ok(format!("feats[{}]", show_features(v)?.join(","))),
         Fmt::Wkt => {
             let s = v.as_str().ok_or("wkt-not-a-string")?;
-            let l = geo::LineString::<f64>::try_from_wkt_str(s).map_err(|e| format!("wkt:{}", e))?;
-            Ok(format!("wkt{}", show_pts(&ls_pts(&l))))
+            let l = geo::LineString::<f32>::try_from_wkt_str(s).map_err(|e| format!("wkt:{}", e))?;
+            Ok(format!("wkt{}", show_pts(&ls_pts32(&l))))
         }
         Fmt::Wkb => match wkb_geom(v)? {
             geo::Geometry::LineString(l) => Ok(format!("wkb{}", show_pts(&ls_pts(&l)))),
@@ -451,8 +473,8 @@ fn show_tree_out(f: Fmt, v: &Value) -> String {
         Fmt::GeoJson => Ok(format!("feats{}", bag(show_features(v)?))),
         Fmt::Wkt => {
             let s = v.as_str().ok_or("wkt-not-a-string")?;
-            let m = geo::MultiLineString::<f64>::try_from_wkt_str(s).map_err(|e| format!("wkt:{}", e))?;
-            Ok(format!("wkt{}", bag(m.0.iter().map(|l| show_pts(&ls_pts(l))).collect())))
+            let m = geo::MultiLineString::<f32>::try_from_wkt_str(s).map_err(|e| format!("wkt:{}", e))?;
+            Ok(format!("wkt{}", bag(m.0.iter().map(|l| show_pts(&ls_pts32(l))).collect())))
         }
         Fmt::Wkb => match wkb_geom(v)? {
             geo::Geometry::MultiLineString(m) => Ok(format!("wkb{}", bag(m.0.iter().map(|l| show_pts(&ls_pts(l))).collect()))),
@@ -676,6 +698,14 @@ fn coq_case_args(c: &Case) -> String {
     let rows = coq_list(&c.rows, |r| match r {
         Row::Bad(_) => "None".to_string(),
         Row::Line(pts) => format!("(Some {})", coq_list(pts, |(x, y)| format!("({}, {})", coq_z(*x as i128), coq_z(*y as i128)))),
+        Row::Bits(pts) => format!(
+            "(Some {})",
+            coq_list(pts, |(x, y)| format!(
+                "({}, {})",
+                coq_z(coord_label(f32::from_bits(*x)) as i128),
+                coq_z(coord_label(f32::from_bits(*y)) as i128)
+            ))
+        ),
     });
     let uuids = coq_list(&c.uuids, |s| coq_string(s));
     let field = |f: &Field| match f {
@@ -727,7 +757,7 @@ fn add_case(st: &mut Stream, mut c: Case, family: &str) {
     let desc = json!({"id": id, "family": family, "case": serde_json::to_value(&c).unwrap()});
     // ---- histogram / non-triviality
     st.count(&format!("family:{}", family));
-    let rows_ok = c.rows.iter().all(|r| matches!(r, Row::Line(_)));
+    let rows_ok = c.rows.iter().all(|r| matches!(r, Row::Line(_) | Row::Bits(_)));
     let present = |e: usize| e < c.rows.len();
     let mut nontrivial = false;
     match &c.sr {
@@ -786,6 +816,19 @@ fn add_case(st: &mut Stream, mut c: Case, family: &str) {
     }
     st.count(if c.gz { "geometry_file:gzip" } else { "geometry_file:plain" });
     for r in &c.rows {
+        if let Row::Bits(p) = r {
+            st.count(&format!("linestring_points:{}", p.len().min(6)));
+            for (x, y) in p {
+                for b in [x, y] {
+                    let v = f32::from_bits(*b) as f64;
+                    let dec = if (v * 1e3).fract() == 0.0 { "<=3" } else if (v * 1e6).fract() == 0.0 { "4-6" } else { ">6" };
+                    st.count(&format!("ordinate_decimals:{}", dec));
+                    if dec == ">6" {
+                        nontrivial = true;
+                    }
+                }
+            }
+        }
         if let Row::Line(p) = r {
             st.count(&format!("linestring_points:{}", p.len().min(6)));
         }
@@ -834,11 +877,43 @@ fn add_case(st: &mut Stream, mut c: Case, family: &str) {
 fn gen_line(r: &mut Rng, npts: usize) -> Vec<(i32, i32)> {
     (0..npts).map(|_| (r.range(-2048, 2048) as i32, r.range(-720, 720) as i32)).collect()
 }
+const SPECIAL_ORDINATES: [f32; 14] = [
+    1e-7, 5.9604645e-8, 0.1, -0.30000001, 7.999999, 1.0000001, 0.000001, 0.0000005, -0.0000015, 123.456, -179.99999, 0.33333334, 3.1415927, -7.0000005,
+];
+/// an f32 that needs many decimals but prints / re-parses exactly: k/2^m with m <= 20 and |value| < 8, or a special value
+fn gen_fine_ordinate(r: &mut Rng) -> u32 {
+    if r.chance(1, 4) {
+        return r.pick(&SPECIAL_ORDINATES).to_bits();
+    }
+    let m = r.range(4, 20) as u32;
+    let lim = 8i64 << m;
+    let k = r.range(-(lim - 1), lim - 1);
+    (k as f32 / (1u32 << m) as f32).to_bits()
+}
 fn gen_rows(r: &mut Rng, n: usize) -> Vec<Row> {
+    let fine = r.chance(1, 3);
     (0..n)
         .map(|_| {
             let k = r.range(2, 6) as usize;
-            Row::Line(gen_line(r, k))
+            if fine && r.chance(3, 4) {
+                Row::Bits((0..k).map(|_| (gen_fine_ordinate(r), gen_fine_ordinate(r))).collect())
+            } else {
+                Row::Line(gen_line(r, k))
+            }
+        })
+        .collect()
+}
+/// deterministic rows with sub-microdegree detail: row i mixes k/2^m (m = 4 + 2 i) with the special values
+fn fine_rows(n: usize) -> Vec<Row> {
+    (0..n)
+        .map(|i| {
+            let m = (4 + 2 * i as u32).min(20);
+            let d = (1u32 << m) as f32;
+            let a = (3.0 + (2 * i + 1) as f32 / d).to_bits();
+            let b = (-(1.0 + (2 * i + 3) as f32 / d)).to_bits();
+            let s0 = SPECIAL_ORDINATES[(2 * i) % SPECIAL_ORDINATES.len()].to_bits();
+            let s1 = SPECIAL_ORDINATES[(2 * i + 1) % SPECIAL_ORDINATES.len()].to_bits();
+            Row::Bits(vec![(a, b), (s0, s1), (b, a)])
         })
         .collect()
 }
@@ -918,6 +993,17 @@ fn boundary_cases(st: &mut Stream, thorough: bool) {
         add_case(st, base_case(rows.clone(), vec![desc], vec![]), "route_descending_ids");
         let asc: Vec<Trav> = (0..n).map(|i| trav_det(i, i)).collect();
         add_case(st, base_case(rows, vec![asc], vec![]), "route_ascending_ids");
+    }
+    // coordinates below 1e-6: every format must hand back the stored f32 values bit for bit
+    for n in [1usize, 2, 5, 9] {
+        let route: Vec<Trav> = (0..n).map(|i| trav_det(n - 1 - i, i)).collect();
+        let tree: Vec<Branch> = (0..n).map(|i| Branch { key: i + 1, tv: i / 2, tr: trav_det(i, i) }).collect();
+        add_case(st, base_case(fine_rows(n), vec![route], vec![tree]), "fine_coordinates");
+    }
+    for (i, v) in SPECIAL_ORDINATES.iter().enumerate() {
+        let w = SPECIAL_ORDINATES[(i + 5) % SPECIAL_ORDINATES.len()];
+        let rows = vec![Row::Bits(vec![(v.to_bits(), w.to_bits()), (w.to_bits(), v.to_bits())]), Row::Line(vec![(1, 2), (3, 4)])];
+        add_case(st, base_case(rows, vec![vec![trav_det(1, 0), trav_det(0, 1)]], vec![]), "fine_coordinates");
     }
     // repeated edges, and a route over a table larger than the route
     add_case(
